@@ -280,10 +280,12 @@ def check(tier):
 
 def replay(path):
     case = json.load(open(path))["case"]
-    print("replay needs the base; histories are listed in the replay file:", case["history"])
+    hist = [tuple(tuple(x) if isinstance(x, list) else x for x in op) for op in case["history"]]
+    print("history:", hist)
+    rc = 0
     for name, base in BASES.items():
         s = Edits(base, build_ops("thorough"))
-        hist = [tuple(tuple(x) if isinstance(x, list) else x for x in op) for op in case["history"]]
         ctx, model, probs = e2.replay(s, hist)
-        print(name, "->", probs[:2])
-    return 0
+        print(name, "->", [p[0] for p in probs] or "coherent")
+        rc = rc or int(bool(probs))
+    return rc
